@@ -123,7 +123,7 @@ def replay_script(harness_spec, params, script, rule):
     from vk import engine as E
     try:
         harness = load_harness(harness_spec, params)
-        ce = E.ConcreteEngine(script)
+        ce = E.ConcreteEngine(script, stop_rule=rule)
         status, value = ce.run(harness)
         rules = [v.rule for v in ce.violations]
         if rule in rules:
